@@ -27,6 +27,7 @@ class _FFile:
         self.encoding = encoding or "utf-8"
         self.raw = builtins.open(path, "wb")
         self.closed = False
+        self.pybuf = []  # buffered mode: data that has not been handed to the OS yet
         fs.fds[self.raw.fileno()] = self
         fs.info[path] = {"durable": 0, "writes": []}
 
@@ -43,13 +44,26 @@ class _FFile:
             self.fs.die()
         if self.fs.crashed:
             return len(data)
+        if self.fs.buffered:
+            # user-space buffer: reaches the OS at flush()/close() only; lost when the process dies
+            self.pybuf.append(raw)
+            return len(data)
         self.raw.write(raw)
         self.raw.flush()
         self.fs.info[self.path]["writes"].append(len(raw))
         return len(data)
 
+    def _drain(self):
+        for raw in self.pybuf:
+            self.raw.write(raw)
+            self.fs.info[self.path]["writes"].append(len(raw))
+        self.pybuf = []
+        self.raw.flush()
+
     def flush(self):
         self.fs.point(("flush", _os.path.basename(self.path)))
+        if not self.fs.crashed and self.fs.buffered:
+            self._drain()
 
     def fileno(self):
         return self.raw.fileno()
@@ -59,6 +73,8 @@ class _FFile:
             return
         try:
             self.fs.point(("close", _os.path.basename(self.path)))
+            if not self.fs.crashed and self.fs.buffered:
+                self._drain()
         finally:
             self.closed = True
             self.fs.fds.pop(self.raw.fileno(), None)
@@ -120,8 +136,9 @@ class _OsProxy:
 class FaultFS:
     """mode: 'record' | 'crash' | 'fail'; at: operation index; cut: bytes of a torn write (crash only)."""
 
-    def __init__(self, mode="record", at=None, cut=None, at_name=None):
+    def __init__(self, mode="record", at=None, cut=None, at_name=None, buffered=False):
         self.mode = mode
+        self.buffered = buffered  # model Python's user-space write buffer (see _FFile.write)
         self.at = at
         self.at_name = at_name  # alternatively: inject at the first operation of this kind (e.g. "fsync")
         self.cut = cut
